@@ -21,6 +21,15 @@ Proof.
   - intros [H|H]; [left; subst; apply str_eqb_refl'|right; exact H].
 Qed.
 
+Lemma assoc_str_nodup {A} n (v : A) : forall w, NoDup (map fst w) -> In (n, v) w -> assoc_str n w = Some v.
+Proof.
+  induction w as [|[k x] w IH]; intros ND Hin; [destruct Hin|]. simpl. simpl in ND. inversion ND; subst.
+  destruct Hin as [Hq|Hin].
+  - inversion Hq; subst. rewrite str_eqb_refl'. reflexivity.
+  - destruct (str_eqb n k) eqn:E; [|apply IH; auto].
+    apply str_eqb_true in E. subst k. exfalso. apply H1. change n with (fst (n, v)). apply in_map. exact Hin.
+Qed.
+
 (* ------------------------------------------------------------------ node level *)
 Definition is_created (o : outcome) : bool := match o with Created _ => true | _ => false end.
 Definition nerr_name (e : nerr) : str := match e with NRejected m _ => m | NCrashed m => m end.
@@ -515,7 +524,7 @@ Ltac fin Ep := repeat split; simpl; intros; try reflexivity; try congruence; try
 
 Lemma param_setprop_inv p k v p' : param_setprop p k v = PGo p' ->
   keeps p p' /\ dtu p' = over_step (dtu p) (k, v) /\
-  (str_eqb k k_value = false -> p_value p' = p_value p) /\ (str_eqb k k_value = true -> p_value p' = Some v).
+  (str_eqb k k_value = false -> p_value p' = p_value p) /\ (str_eqb k k_value = true -> p_value p' = nn v).
 Proof.
   unfold param_setprop. destruct (pprop_type param_props k) as [t|] eqn:Ep.
   - destruct (str_eqb k k_value) eqn:Ev. { intros H; inversion H; subst; fin Ep. }
@@ -540,22 +549,8 @@ Qed.
 
 Lemma prop_step_inv p k v p' : p_iscmd p = false -> prop_step (PGo p) (k, v) = PGo p' ->
   keeps p p' /\ dtu p' = over_step (dtu p) (k, v) /\
-  (str_eqb k k_value = false -> p_value p' = p_value p) /\ (str_eqb k k_value = true -> p_value p' = Some v)
-  /\ (mem_str k checked_value_props = true -> forall d, p_dt p = Some d -> exists c, conv d v = Ok c).
-Proof.
-  intros Hc. unfold prop_step. rewrite Hc.
-  destruct (mem_str k checked_value_props) eqn:Em.
-  - destruct (p_dt p) as [d|] eqn:Ed.
-    + destruct (conv d v) as [c|e] eqn:Ecv.
-      * intros H. apply param_setprop_inv in H. destruct H as [H1 [H0 [H2 H3]]].
-        split; [exact H1|split; [exact H0|split; [exact H2|split; [exact H3|]]]].
-        intros _ d0 Hd. inversion Hd; subst. exists c. exact Ecv.
-      * destruct (is_bad_value e); discriminate.
-    + intros H. apply param_setprop_inv in H. destruct H as [H1 [H0 [H2 H3]]].
-      split; [exact H1|split; [exact H0|split; [exact H2|split; [exact H3|]]]]. intros _ d0 Hd. discriminate.
-  - intros H. apply param_setprop_inv in H. destruct H as [H1 [H0 [H2 H3]]].
-    split; [exact H1|split; [exact H0|split; [exact H2|split; [exact H3|]]]]. intros; discriminate.
-Qed.
+  (str_eqb k k_value = false -> p_value p' = p_value p) /\ (str_eqb k k_value = true -> p_value p' = nn v).
+Proof. intros Hc. unfold prop_step. rewrite Hc. apply param_setprop_inv. Qed.
 
 (* the whole entry *)
 Lemma apply_entry_keep_cons p kv r :
@@ -574,12 +569,12 @@ Qed.
 Lemma entry_inv : forall en p p1, p_iscmd p = false -> apply_entry_keep p en = (p1, PGo p1) ->
   keeps p p1 /\ dtu p1 = configured (dtu p) en /\
   (~ In k_value (map fst en) -> p_value p1 = p_value p) /\
-  (forall v, NoDup (map fst en) -> In (k_value, v) en -> p_value p1 = Some v).
+  (forall v, NoDup (map fst en) -> In (k_value, v) en -> p_value p1 = nn v).
 Proof.
   induction en as [|[k v] en IH]; intros p p1 Hc H; [simpl in H|rewrite apply_entry_keep_cons in H].
   - inversion H; subst. split; [apply keeps_refl|]. split; [reflexivity|]. split; [reflexivity|intros ? ? []].
   - destruct (prop_step (PGo p) (k, v)) as [| |p'] eqn:Es; [inversion H|inversion H|].
-    + destruct (prop_step_inv _ _ _ _ Hc Es) as [K [DU [V0 [V1 Ck]]]].
+    + destruct (prop_step_inv _ _ _ _ Hc Es) as [K [DU [V0 V1]]].
       assert (Hc' : p_iscmd p' = false) by (rewrite (k_cmd _ _ K); exact Hc).
       destruct (IH p' p1 Hc' H) as [K2 [D2 [N2 V2]]].
       split; [eapply keeps_trans; eassumption|]. split; [|split].
@@ -591,32 +586,59 @@ Proof.
         -- simpl in ND. inversion ND; subst. apply V2; assumption.
 Qed.
 
-(* a value / default / constant at any position of an entry that goes through is a value of the datatype configured by
-   the items BEFORE it *)
-Lemma entry_checked p pre k v rest p1 d dpre : p_iscmd p = false -> p_dt p = Some d ->
-  apply_entry_keep p (pre ++ (k, v) :: rest) = (p1, PGo p1) -> mem_str k checked_value_props = true ->
-  configured_dt d (p_unit p) pre = Some dpre -> exists c, conv dpre v = Ok c.
+(* the second loop of the try block: when it goes through, every value / default / constant of the entry is a value of the
+   datatype the parameter has THEN (all properties applied) *)
+Lemma check_loop_go p en : forall ks p', check_loop p en ks = PGo p' -> p' = p.
 Proof.
-  intros Hc Hd H Hm Hpre. destruct (apply_entry_keep_split _ _ _ _ H) as [pp [H1 H2]].
-  destruct (entry_inv _ _ _ Hc H1) as [K [DU _]].
-  assert (Hcp : p_iscmd pp = false) by (rewrite (k_cmd _ _ K); exact Hc).
-  rewrite apply_entry_keep_cons in H2.
-  destruct (prop_step (PGo pp) (k, v)) as [| |p'] eqn:Es; [inversion H2|inversion H2|].
-  destruct (prop_step_inv _ _ _ _ Hcp Es) as [_ [_ [_ [_ Ck]]]].
-  apply (Ck Hm). unfold configured_dt in Hpre. unfold dtu in DU. rewrite Hd in DU.
-  rewrite <- DU in Hpre. exact Hpre.
+  induction ks as [|k ks IH]; intros p' H; simpl in H; [inversion H; reflexivity|].
+  destruct (assoc_str k en); [|apply IH; exact H]. destruct (p_iscmd p); [discriminate|].
+  destruct (p_dt p); [|apply IH; exact H]. destruct (conv d p0) as [c|e]; [apply IH; exact H|].
+  destruct (is_bad_value e); discriminate.
 Qed.
+Lemma check_loop_ok p en : forall ks p', check_loop p en ks = PGo p' ->
+  forall k v d, In k ks -> assoc_str k en = Some v -> p_dt p = Some d -> exists c, conv d v = Ok c.
+Proof.
+  induction ks as [|k0 ks IH]; intros p' H k v d Hin Ha Hd; [destruct Hin|]. simpl in H.
+  destruct Hin as [Hk|Hin].
+  - subst k0. rewrite Ha in H. destruct (p_iscmd p); [discriminate|]. rewrite Hd in H.
+    destruct (conv d v) as [c|e]; [exists c; reflexivity|]. destruct (is_bad_value e); discriminate.
+  - destruct (assoc_str k0 en); [|eapply IH; eassumption]. destruct (p_iscmd p); [discriminate|].
+    destruct (p_dt p); [|eapply IH; eassumption]. destruct (conv d0 p0) as [c|e]; [eapply IH; eassumption|].
+    destruct (is_bad_value e); discriminate.
+Qed.
+Lemma check_loop_err p en : forall ks er, check_loop p en ks = PErr er -> exists k, In k ks /\ er = ErrBadValue (p_name p) k.
+Proof.
+  induction ks as [|k0 ks IH]; intros er H; simpl in H; [discriminate|].
+  assert (R : check_loop p en ks = PErr er -> exists k, In k (k0 :: ks) /\ er = ErrBadValue (p_name p) k).
+  { intros H'. destruct (IH _ H') as [k [Hk He]]. exists k. split; [right; exact Hk|exact He]. }
+  destruct (assoc_str k0 en); [|apply R; exact H]. destruct (p_iscmd p); [discriminate|].
+  destruct (p_dt p); [|apply R; exact H]. destruct (conv d p0) as [c|e]; [apply R; exact H|].
+  destruct (is_bad_value e); [|discriminate]. inversion H. exists k0. split; [left; reflexivity|reflexivity].
+Qed.
+(* ... and when nothing fails it goes through *)
+Lemma check_loop_pass p en d : p_iscmd p = false -> p_dt p = Some d -> forall ks,
+  (forall k v, In k ks -> assoc_str k en = Some v -> exists c, conv d v = Ok c) -> check_loop p en ks = PGo p.
+Proof.
+  intros Hc Hd. induction ks as [|k ks IH]; intros H; simpl; [reflexivity|].
+  destruct (assoc_str k en) as [v|] eqn:Ea; [|apply IH; intros; eapply H; [right|]; eassumption].
+  rewrite Hc, Hd. destruct (H k v (or_introl eq_refl) Ea) as [c Hcv]. rewrite Hcv.
+  apply IH. intros; eapply H; [right|]; eassumption.
+Qed.
+Lemma checked_order : checked_value_props = [k_value; k_default; k_constant].
+Proof. vm_compute. reflexivity. Qed.
+Lemma mem_checked_in k : mem_str k checked_value_props = true -> In k checked_value_props.
+Proof. apply mem_str_In. Qed.
 
 (* the value of an entry `pre ++ (value, v) :: rest` without a second `value` key *)
 Lemma entry_value p pre v rest p1 : p_iscmd p = false ->
-  apply_entry_keep p (pre ++ (k_value, v) :: rest) = (p1, PGo p1) -> ~ In k_value (map fst rest) -> p_value p1 = Some v.
+  apply_entry_keep p (pre ++ (k_value, v) :: rest) = (p1, PGo p1) -> ~ In k_value (map fst rest) -> p_value p1 = nn v.
 Proof.
   intros Hc H Hn. destruct (apply_entry_keep_split _ _ _ _ H) as [pp [H1 H2]].
   destruct (entry_inv _ _ _ Hc H1) as [K _].
   assert (Hcp : p_iscmd pp = false) by (rewrite (k_cmd _ _ K); exact Hc).
   rewrite apply_entry_keep_cons in H2.
   destruct (prop_step (PGo pp) (k_value, v)) as [| |p'] eqn:Es; [inversion H2|inversion H2|].
-  destruct (prop_step_inv _ _ _ _ Hcp Es) as [K1 [_ [_ [V1 _]]]].
+  destruct (prop_step_inv _ _ _ _ Hcp Es) as [K1 [_ [_ V1]]].
   assert (Hc' : p_iscmd p' = false) by (rewrite (k_cmd _ _ K1); exact Hcp).
   destruct (entry_inv _ _ _ Hc' H2) as [_ [_ [N2 _]]]. rewrite (N2 Hn). apply V1. apply str_eqb_refl'.
 Qed.
@@ -626,6 +648,17 @@ Lemma apply_entry_keep_go : forall en p pk p1, apply_entry_keep p en = (pk, PGo 
 Proof.
   induction en as [|kv en IH]; intros p pk p1 H; [simpl in H; inversion H; reflexivity|].
   rewrite apply_entry_keep_cons in H. destruct (prop_step (PGo p) kv) eqn:E; try (inversion H; fail). eapply IH; exact H.
+Qed.
+
+(* apply_entry = the first loop, then the checks *)
+Lemma apply_entry_go p en pk p1 : apply_entry p en = (pk, PGo p1) ->
+  pk = p1 /\ apply_entry_keep p en = (p1, PGo p1) /\ check_loop p1 en checked_value_props = PGo p1.
+Proof.
+  unfold apply_entry. destruct (apply_entry_keep p en) as [q r] eqn:E. destruct r as [| |q'].
+  - intros H; inversion H.
+  - intros H; inversion H.
+  - pose proof (apply_entry_keep_go _ _ _ _ E). subst q'. intros H. apply pair_equal_spec in H. destruct H as [A B].
+    subst pk. pose proof (check_loop_go _ _ _ _ B). subst p1. auto.
 Qed.
 
 Lemma handle_writes_ok p p2 w : handle_writes p = (p2, [], w) ->
@@ -660,7 +693,8 @@ Proof. destruct (post_keeps mexp p) as [_ [_ [_ [_ [H _]]]]]. exact H. Qed.
 
 Lemma acc_step_ok mexp p e a : p_iscmd p = false -> acc_step mexp p e = Some a -> a_errs a = [] ->
   exists p1, (match e with
-              | Some (CDict en) => apply_entry_keep p en = (p1, PGo p1)
+              | Some (CDict en) => apply_entry_keep p en = (p1, PGo p1) /\
+                                   check_loop p1 en checked_value_props = PGo p1
               | None => p1 = p
               | Some (CRaw _) => False
               end) /\
@@ -669,14 +703,14 @@ Proof.
   intros Hc. unfold acc_step.
   destruct e as [[v|en]|].
   - discriminate.
-  - destruct (apply_entry_keep p en) as [pk r] eqn:E. destruct r as [|er|p1].
+  - destruct (apply_entry p en) as [pk r] eqn:E0. destruct r as [|er|p1].
     + discriminate.
     + cbv zeta. destruct (p_iscmd (post mexp pk)); [intros H; inversion H; subst; simpl; discriminate|].
       destruct (handle_writes (post mexp pk)) as [[p2 es] w]. intros H; inversion H; subst; simpl; discriminate.
-    + pose proof (apply_entry_keep_go _ _ _ _ E). subst pk.
+    + destruct (apply_entry_go _ _ _ _ E0) as [Epk [E Ck]]. subst pk.
       destruct (entry_inv _ _ _ Hc E) as [K _]. cbv zeta. rewrite post_cmd, (k_cmd _ _ K), Hc.
       destruct (handle_writes (post mexp p1)) as [[p2 es] w] eqn:Eh. intros H; inversion H; subst; simpl. intros He; subst es.
-      exists p1. split; [reflexivity|split; [exact Eh|reflexivity]].
+      exists p1. split; [split; [exact E|exact Ck]|split; [exact Eh|reflexivity]].
   - cbv beta iota zeta. rewrite post_cmd, Hc.
     destruct (handle_writes (post mexp p)) as [[p2 es] w] eqn:Eh. intros H; inversion H; subst; simpl. intros He; subst es.
     exists p. split; [reflexivity|split; [exact Eh|reflexivity]].
@@ -726,7 +760,7 @@ Lemma created_param C c i p : mod_init C c = Created i -> In p (c_params C) -> p
   exists mv a p1 y p',
     acc_step (mexport mv) p (assoc_str (p_name p) c) = Some a /\
     (match assoc_str (p_name p) c with
-     | Some (CDict en) => apply_entry_keep p en = (p1, PGo p1)
+     | Some (CDict en) => apply_entry_keep p en = (p1, PGo p1) /\ check_loop p1 en checked_value_props = PGo p1
      | None => p1 = p
      | Some (CRaw _) => False
      end) /\
@@ -752,7 +786,7 @@ Proof.
     pose proof (handle_writes_wfunc (post (mexport mv) p1)) as Wh. rewrite Hh in Wh. simpl in Wh. rewrite Wh.
     destruct (post_keeps (mexport mv) p1) as [K0 _]. rewrite (k_wf _ _ K0).
     destruct (assoc_str (p_name p) c) as [[v|en]|]; [contradiction| |subst p1; reflexivity].
-    destruct (entry_inv _ _ _ Hc He) as [K _]. exact (k_wf _ _ K).
+    destruct He as [He _]. destruct (entry_inv _ _ _ Hc He) as [K _]. exact (k_wf _ _ K).
 Qed.
 
 (* ------------------------------------------------------------------ the property-level statements *)
@@ -764,35 +798,41 @@ Definition start_value (d : dtype) (v : pyval) : option pyval :=
 Lemma post_unit mexp p : p_unit (post mexp p) = p_unit p.
 Proof. unfold post, fix_export. destruct mexp; simpl; [destruct (p_export p); reflexivity|reflexivity]. Qed.
 
-Lemma value_applied C c i p d pre v rest :
+Lemma conv_none d : exists e, conv d PNone = Err e.
+Proof. unfold conv. destruct d; simpl; eexists; reflexivity. Qed.
+Lemma conv_ok_nn d v c : conv d v = Ok c -> nn v = Some v.
+Proof. intros H. destruct v; try reflexivity. destruct (conv_none d) as [e He]. rewrite He in H. discriminate. Qed.
+
+Lemma value_applied C c i p d en v :
   mod_init C c = Created i -> In p (c_params C) -> p_optional p = false -> p_iscmd p = false -> p_dt p = Some d ->
-  assoc_str (p_name p) c = Some (CDict (pre ++ (k_value, v) :: rest)) -> ~ In k_value (map fst rest) ->
-  exists p' dv d' c1, In p' (i_params i) /\ p_name p' = p_name p /\
-    configured_dt d (p_unit p) pre = Some dv /\ conv dv v = Ok c1 /\
-    configured_dt d (p_unit p) (pre ++ (k_value, v) :: rest) = Some d' /\ p_dt p' = Some d' /\
-    p_value p' = start_value d' v /\
+  assoc_str (p_name p) c = Some (CDict en) -> NoDup (map fst en) -> In (k_value, v) en ->
+  exists p' d' c1, In p' (i_params i) /\ p_name p' = p_name p /\
+    configured_dt d (p_unit p) en = Some d' /\ p_dt p' = Some d' /\ conv d' v = Ok c1 /\
+    p_value p' = match conv d' c1 with Ok c2 => Some c2 | Err _ => None end /\
     (p_has_write p = true -> In (p_name p, v) (i_write i)) /\ p_wfunc p' = p_wfunc p.
 Proof.
-  intros H Hin Ho Hc Hd Hcfg Hn.
+  intros H Hin Ho Hc Hd Hcfg ND Hv.
   destruct (created_param _ _ _ _ H Hin Ho Hc) as [mv [a [p1 [y [p' [Hs [He [Hh [Hf [Hp' [N1 [D1 [V1 [_ [_ [_ [Hw W1]]]]]]]]]]]]]]]]].
-  rewrite Hcfg in He.
-  destruct (entry_inv _ _ _ Hc He) as [K [DU _]].
-  pose proof (entry_value _ _ _ _ _ Hc He Hn) as Hval.
-  destruct (configured_some pre (Some d, p_unit p) d eq_refl) as [dv Hdv].
-  destruct (entry_checked _ _ _ _ _ _ _ _ Hc Hd He (eq_refl : mem_str k_value checked_value_props = true) Hdv) as [c1 Hc1].
+  rewrite Hcfg in He. destruct He as [He Ck].
+  destruct (entry_inv _ _ _ Hc He) as [K [DU [_ Vv]]].
+  pose proof (Vv v ND Hv) as Hval.
   destruct (post_keeps (mexport mv) p1) as [K0 [PV [_ [_ [PD _]]]]].
   destruct (handle_writes_ok _ _ _ Hh) as [d1 [Hd1 [_ [Hd2 [Hn2 [Hc2 [_ Hm]]]]]]].
-  rewrite PV, Hval in Hm. destruct Hm as [Hv2 Hw2]. rewrite PD in Hd1.
-  assert (Hcfgd : configured_dt d (p_unit p) (pre ++ (k_value, v) :: rest) = Some d1).
+  rewrite PD in Hd1.
+  assert (Hcfgd : configured_dt d (p_unit p) en = Some d1).
   { unfold configured_dt. unfold dtu in DU. rewrite Hd in DU. rewrite <- DU. exact Hd1. }
+  destruct (check_loop_ok _ _ _ _ Ck k_value v d1) as [c1 Hc1];
+    [rewrite checked_order; left; reflexivity|apply assoc_str_nodup; assumption|exact Hd1|].
+  rewrite (conv_ok_nn _ _ _ Hc1) in Hval.
+  rewrite PV, Hval in Hm. destruct Hm as [Hv2 Hw2].
   assert (Hca : p_iscmd (a_param a) = false).
   { rewrite Hc2, (k_cmd _ _ K0), (k_cmd _ _ K). exact Hc. }
   destruct (finish_param_ok _ _ Hca Hf) as [Fn [Fd [_ [_ Fr]]]].
-  exists p', dv, d1, c1. split; [exact Hp'|]. split; [|split; [exact Hdv|split; [exact Hc1|split; [exact Hcfgd|split; [|split; [|split; [|exact W1]]]]]]].
+  exists p', d1, c1. split; [exact Hp'|]. split; [|split; [exact Hcfgd|split; [|split; [exact Hc1|split; [|split; [|exact W1]]]]]].
   - rewrite N1, Fn, Hn2, (k_name _ _ K0). apply (k_name _ _ K).
   - rewrite D1, Fd. exact Hd2.
-  - rewrite V1. rewrite Hd2, Hv2 in Fr. unfold refit in Fr. unfold start_value.
-    destruct (conv d1 (match conv d1 v with Ok c0 => c0 | Err _ => v end)) as [c2|e]; [inversion Fr; reflexivity|].
+  - rewrite V1. rewrite Hd2, Hv2, Hc1 in Fr. unfold refit in Fr.
+    destruct (conv d1 c1) as [c2|e]; [inversion Fr; reflexivity|].
     destruct (is_bad_value e); [inversion Fr; reflexivity|discriminate].
   - intros Hhw. assert (a_write a = Some v) as Hwa.
     { rewrite Hw2, (k_hw _ _ K0), (k_hw _ _ K), Hhw. reflexivity. }
@@ -808,15 +848,18 @@ Proof.
   rewrite EU in H0. destruct H0.
 Qed.
 
-Lemma wrong_type_rejected C c i p d pre k v rest dpre e :
+(* value / default / constant anywhere in the entry: checked by the class datatype with ALL overrides of the entry applied *)
+Lemma wrong_type_rejected C c i p d en k v d' e :
   In p (c_params C) -> p_optional p = false -> p_iscmd p = false -> p_dt p = Some d ->
-  assoc_str (p_name p) c = Some (CDict (pre ++ (k, v) :: rest)) -> mem_str k checked_value_props = true ->
-  configured_dt d (p_unit p) pre = Some dpre -> conv dpre v = Err e -> mod_init C c <> Created i.
+  assoc_str (p_name p) c = Some (CDict en) -> mem_str k checked_value_props = true -> assoc_str k en = Some v ->
+  configured_dt d (p_unit p) en = Some d' -> conv d' v = Err e -> mod_init C c <> Created i.
 Proof.
-  intros Hin Ho Hc Hd Hcfg Hm Hpre Hcv H.
+  intros Hin Ho Hc Hd Hcfg Hm Ha Hd' Hcv H.
   destruct (created_param _ _ _ _ H Hin Ho Hc) as [mv [a [p1 [y [p' [Hs [He _]]]]]]].
-  rewrite Hcfg in He.
-  destruct (entry_checked _ _ _ _ _ _ _ _ Hc Hd He Hm Hpre) as [c1 Hc1]. rewrite Hcv in Hc1. discriminate.
+  rewrite Hcfg in He. destruct He as [He Ck]. destruct (entry_inv _ _ _ Hc He) as [_ [DU _]].
+  assert (Hd1 : p_dt p1 = Some d').
+  { unfold configured_dt in Hd'. unfold dtu in DU. rewrite Hd in DU. rewrite <- DU in Hd'. exact Hd'. }
+  destruct (check_loop_ok _ _ _ _ Ck k v d' (mem_checked_in _ Hm) Ha Hd1) as [c1 Hc1]. rewrite Hcv in Hc1. discriminate.
 Qed.
 
 Lemma raw_section_rejected C c i p v :
@@ -883,8 +926,7 @@ Qed.
 Lemma prop_step_name p kv p' : prop_step (PGo p) kv = PGo p' -> p_name p' = p_name p.
 Proof.
   destruct kv as [k v]. intros H. destruct (p_iscmd p) eqn:Hc.
-  - unfold prop_step in H. rewrite Hc in H. destruct (mem_str k checked_value_props); [discriminate|].
-    eapply cmd_setprop_name; exact H.
+  - unfold prop_step in H. rewrite Hc in H. eapply cmd_setprop_name; exact H.
   - apply (prop_step_inv _ _ _ _ Hc) in H. destruct H as [K _]. exact (k_name _ _ K).
 Qed.
 
@@ -893,6 +935,12 @@ Proof.
   induction en as [|kv en IH]; intros p pk r H; [simpl in H; inversion H; reflexivity|].
   rewrite apply_entry_keep_cons in H. destruct (prop_step (PGo p) kv) eqn:E; try (inversion H; reflexivity).
   rewrite (IH _ _ _ H). eapply prop_step_name; exact E.
+Qed.
+
+Lemma apply_entry_name p en pk r : apply_entry p en = (pk, r) -> p_name pk = p_name p.
+Proof.
+  unfold apply_entry. destruct (apply_entry_keep p en) as [q r0] eqn:E. pose proof (apply_entry_keep_name _ _ _ _ E) as N.
+  destruct r0; intros H; inversion H; subst; exact N.
 Qed.
 
 Lemma handle_writes_name p : p_name (fst (fst (handle_writes p))) = p_name p.
@@ -927,12 +975,12 @@ Proof.
       intros H; inversion H; subst; simpl. rewrite Nh, post_name. split; [exact Nk|]. unfold name_of. rewrite Xh, Nh.
       split; [reflexivity|exact NX]. }
   destruct e as [[v|en]|]; [discriminate| |].
-  - destruct (apply_entry_keep p en) as [pk r] eqn:E.
-    pose proof (apply_entry_keep_name _ _ _ _ E) as Nk.
+  - destruct (apply_entry p en) as [pk r] eqn:E.
+    pose proof (apply_entry_name _ _ _ _ E) as Nk.
     destruct r as [|er|p1]; [discriminate| |].
     + cbv zeta. intros H. apply (S1 pk [er] Nk). destruct (p_iscmd (post mexp pk)); [exact H|].
       destruct (handle_writes (post mexp pk)) as [[p2 es] w]. exact H.
-    + pose proof (apply_entry_keep_go _ _ _ _ E). subst pk.
+    + destruct (apply_entry_go _ _ _ _ E) as [Epk _]. subst pk.
       cbv zeta. intros H. apply (S1 p1 [] Nk). destruct (p_iscmd (post mexp p1)); [exact H|].
       destruct (handle_writes (post mexp p1)) as [[p2 es] w]. exact H.
   - cbv beta iota zeta. intros H. apply (S1 p [] eq_refl). destruct (p_iscmd (post mexp p)); [exact H|].
@@ -1008,27 +1056,19 @@ Proof.
     apply str_eqb_true in E. exfalso. apply H1. rewrite <- E. apply in_map. exact Hin.
 Qed.
 
-Lemma assoc_str_nodup {A} n (v : A) : forall w, NoDup (map fst w) -> In (n, v) w -> assoc_str n w = Some v.
-Proof.
-  induction w as [|[k x] w IH]; intros ND Hin; [destruct Hin|]. simpl. simpl in ND. inversion ND; subst.
-  destruct Hin as [Hq|Hin].
-  - inversion Hq; subst. rewrite str_eqb_refl'. reflexivity.
-  - destruct (str_eqb n k) eqn:E; [|apply IH; auto].
-    apply str_eqb_true in E. subst k. exfalso. apply H1. change n with (fst (n, v)). apply in_map. exact Hin.
-Qed.
 
 (* a configured value of a parameter with a write wrapper: what its driver method receives during start-up *)
-Lemma configured_value_written C c i p d pre v rest :
+Lemma configured_value_written C c i p d en v :
   mod_init C c = Created i -> In p (c_params C) -> p_optional p = false -> p_iscmd p = false -> p_dt p = Some d ->
-  assoc_str (p_name p) c = Some (CDict (pre ++ (k_value, v) :: rest)) -> ~ In k_value (map fst rest) ->
+  assoc_str (p_name p) c = Some (CDict en) -> NoDup (map fst en) -> In (k_value, v) en ->
   NoDup (map p_name (active (c_params C))) -> p_has_write p = true ->
   exists p' d', find_param (p_name p) (i_params i) = Some p' /\ p_dt p' = Some d' /\
-    configured_dt d (p_unit p) (pre ++ (k_value, v) :: rest) = Some d' /\
+    configured_dt d (p_unit p) en = Some d' /\
     has_thread i = true /\
     writes_for (p_name p) (startup i) = match valid d' v with Ok x => if p_wfunc p then [x] else [] | Err _ => [] end.
 Proof.
-  intros H Hin Ho Hc Hd Hcfg Hn ND Hhw.
-  destruct (value_applied _ _ _ _ _ _ _ _ H Hin Ho Hc Hd Hcfg Hn) as [p' [dv [d1 [c1 [Hp' [Hname [_ [_ [Hcfgd [Hd' [_ [Hwa Hw']]]]]]]]]]]].
+  intros H Hin Ho Hc Hd Hcfg NDe Hv ND Hhw.
+  destruct (value_applied _ _ _ _ _ _ _ H Hin Ho Hc Hd Hcfg NDe Hv) as [p' [d1 [c1 [Hp' [Hname [Hcfgd [Hd' [_ [_ [Hwa Hw']]]]]]]]]].
   specialize (Hwa Hhw).
   pose proof (created_write_nodup _ _ _ H ND) as NW.
   assert (Hfind : find_param (p_name p) (i_params i) = Some p').
@@ -1066,8 +1106,7 @@ Qed.
 Lemma prop_step_cmd p kv p' : prop_step (PGo p) kv = PGo p' -> p_iscmd p' = p_iscmd p.
 Proof.
   destruct kv as [k v]. intros H. destruct (p_iscmd p) eqn:Hc.
-  - unfold prop_step in H. rewrite Hc in H. destruct (mem_str k checked_value_props); [discriminate|].
-    rewrite (cmd_setprop_cmd _ _ _ _ H). exact Hc.
+  - unfold prop_step in H. rewrite Hc in H. rewrite (cmd_setprop_cmd _ _ _ _ H). exact Hc.
   - apply (prop_step_inv _ _ _ _ Hc) in H. destruct H as [K _]. rewrite (k_cmd _ _ K). exact Hc.
 Qed.
 Lemma apply_entry_keep_cmd : forall en p pk r, apply_entry_keep p en = (pk, r) -> p_iscmd pk = p_iscmd p.
@@ -1077,14 +1116,20 @@ Proof.
   rewrite (IH _ _ _ H). eapply prop_step_cmd; exact E.
 Qed.
 
+Lemma apply_entry_cmd p en pk r : apply_entry p en = (pk, r) -> p_iscmd pk = p_iscmd p.
+Proof.
+  unfold apply_entry. destruct (apply_entry_keep p en) as [q r0] eqn:E. pose proof (apply_entry_keep_cmd _ _ _ _ E) as N.
+  destruct r0; intros H; inversion H; subst; exact N.
+Qed.
+
 (* a command never gets a writeDict entry *)
 Lemma acc_step_cmd_nowrite mexp p e a : p_iscmd p = true -> acc_step mexp p e = Some a -> a_write a = None.
 Proof.
   intros Hc. unfold acc_step. destruct e as [[v|en]|]; [discriminate| |].
-  - destruct (apply_entry_keep p en) as [pk r] eqn:E. pose proof (apply_entry_keep_cmd _ _ _ _ E) as Ck.
+  - destruct (apply_entry p en) as [pk r] eqn:E. pose proof (apply_entry_cmd _ _ _ _ E) as Ck.
     destruct r as [|er|p1]; [discriminate| |].
     + cbv zeta. rewrite post_cmd, Ck, Hc. intros H; inversion H; reflexivity.
-    + pose proof (apply_entry_keep_go _ _ _ _ E). subst pk. cbv zeta. rewrite post_cmd, Ck, Hc.
+    + destruct (apply_entry_go _ _ _ _ E) as [Epk _]. subst pk. cbv zeta. rewrite post_cmd, Ck, Hc.
       intros H; inversion H; reflexivity.
   - cbv beta iota zeta. rewrite post_cmd, Hc. intros H; inversion H; reflexivity.
 Qed.
@@ -1096,11 +1141,11 @@ Proof.
   induction en as [|[k x] en IH]; intros p p1 v Hc H Hv; [simpl in H; inversion H; subst; right; exact Hv|].
   rewrite apply_entry_keep_cons in H.
   destruct (prop_step (PGo p) (k, x)) as [| |p'] eqn:Es; [inversion H|inversion H|].
-  destruct (prop_step_inv _ _ _ _ Hc Es) as [K [_ [V0 [V1 _]]]].
+  destruct (prop_step_inv _ _ _ _ Hc Es) as [K [_ [V0 V1]]].
   assert (Hc' : p_iscmd p' = false) by (rewrite (k_cmd _ _ K); exact Hc).
   destruct (IH p' p1 v Hc' H Hv) as [Hi|Hp]; [left; right; exact Hi|].
   destruct (str_eqb k k_value) eqn:E.
-  - apply str_eqb_true in E. subst k. rewrite (V1 eq_refl) in Hp. inversion Hp; subst. left. left. reflexivity.
+  - apply str_eqb_true in E. subst k. rewrite (V1 eq_refl) in Hp. destruct x; inversion Hp; subst; left; left; reflexivity.
   - right. rewrite <- (V0 eq_refl). exact Hp.
 Qed.
 
@@ -1123,7 +1168,7 @@ Proof.
   rewrite (k_hw _ _ K0) in Hm. destruct (p_has_write p1) eqn:Ehw; [|discriminate]. inversion Hm; subst v1.
   exists p. rewrite Hn2, (k_name _ _ K0).
   destruct (assoc_str (p_name p) c) as [[x|en]|] eqn:Ecfg; [contradiction| |].
-  - destruct (entry_inv _ _ _ Hc He) as [K _]. rewrite (k_name _ _ K). rewrite (k_hw _ _ K) in Ehw.
+  - destruct He as [He _]. destruct (entry_inv _ _ _ Hc He) as [K _]. rewrite (k_name _ _ K). rewrite (k_hw _ _ K) in Ehw.
     repeat split; try assumption.
     destruct (entry_value_source _ _ _ _ Hc He Ev1) as [Hi|Hv]; [left; exists en; split; [exact Ecfg|exact Hi]|right; exact Hv].
   - subst p1. repeat split; try assumption. right. exact Ev1.
@@ -1194,27 +1239,39 @@ Proof.
   apply in_or_app. left. apply in_flat_map. exists a. split; assumption.
 Qed.
 
-(* a value / default / constant that is not a value of the datatype configured by the items before it in the same Param
-   entry is named, when those items could be applied (the loop over one entry stops at its first failure) *)
-Lemma wrong_type_listed C c es p pre k v rest p1 d1 e : mod_init C c = Rejected es ->
+(* a Param entry whose properties all apply and whose value / default / constant is no value of the final datatype: the
+   first of the three (in the fixed order of the second loop) that fails is named *)
+Lemma check_error_listed C c es p en p1 er : mod_init C c = Rejected es ->
   In p (c_params C) -> p_optional p = false -> p_iscmd p = false ->
-  assoc_str (p_name p) c = Some (CDict (pre ++ (k, v) :: rest)) -> apply_entry_keep p pre = (p1, PGo p1) ->
-  mem_str k checked_value_props = true -> p_dt p1 = Some d1 -> conv d1 v = Err e -> is_bad_value e = true ->
-  In (ErrBadValue (p_name p) k) es.
+  assoc_str (p_name p) c = Some (CDict en) -> apply_entry_keep p en = (p1, PGo p1) ->
+  check_loop p1 en checked_value_props = PErr er -> In er es.
 Proof.
-  intros H Hin Ho Hc Hcfg Hpre Hm Ed1 Hcv Hb.
+  intros H Hin Ho Hc Hcfg Hpre Hck.
   destruct (rejected_inv _ _ _ H) as [mv [esA [accs [ps [EA [EB _]]]]]].
   destruct (phaseB_in _ _ _ _ _ EB Hin Ho) as [a [Ha Hs]].
   apply (acc_error_listed _ _ _ _ _ _ _ _ H EA Hin Ho Hs).
   destruct (entry_inv _ _ _ Hc Hpre) as [K _].
   assert (Hc1 : p_iscmd p1 = false) by (rewrite (k_cmd _ _ K); exact Hc).
-  assert (Hstep : prop_step (PGo p1) (k, v) = PErr (ErrBadValue (p_name p1) k)).
-  { unfold prop_step. rewrite Hc1, Hm, Ed1, Hcv, Hb. reflexivity. }
-  assert (Happ : apply_entry_keep p (pre ++ (k, v) :: rest) = (p1, PErr (ErrBadValue (p_name p1) k))).
-  { rewrite (apply_entry_keep_app _ _ _ _ Hpre), apply_entry_keep_cons, Hstep. reflexivity. }
-  rewrite Hcfg in Hs. unfold acc_step in Hs. rewrite Happ in Hs. cbv zeta in Hs. rewrite post_cmd, Hc1 in Hs.
-  destruct (handle_writes (post (mexport mv) p1)) as [[p2 es0] w]. inversion Hs; subst a. simpl.
-  left. rewrite (k_name _ _ K). reflexivity.
+  rewrite Hcfg in Hs. unfold acc_step, apply_entry in Hs. rewrite Hpre, Hck in Hs. cbv zeta in Hs. rewrite post_cmd, Hc1 in Hs.
+  destruct (handle_writes (post (mexport mv) p1)) as [[p2 es0] w]. inversion Hs; subst a. simpl. left. reflexivity.
+Qed.
+
+Lemma wrong_type_listed C c es p en k v p1 d1 e : mod_init C c = Rejected es ->
+  In p (c_params C) -> p_optional p = false -> p_iscmd p = false ->
+  assoc_str (p_name p) c = Some (CDict en) -> apply_entry_keep p en = (p1, PGo p1) ->
+  mem_str k checked_value_props = true -> assoc_str k en = Some v -> p_dt p1 = Some d1 -> conv d1 v = Err e ->
+  exists k', mem_str k' checked_value_props = true /\ In (ErrBadValue (p_name p) k') es.
+Proof.
+  intros H Hin Ho Hc Hcfg Hpre Hm Ha Ed1 Hcv.
+  destruct (entry_inv _ _ _ Hc Hpre) as [K _].
+  destruct (check_loop p1 en checked_value_props) as [|er|p2] eqn:Eck.
+  - (* an exception that is no BadValueError leaves __init__: the module is not Rejected *)
+    exfalso. destruct (rejected_inv _ _ _ H) as [mv [esA [accs [ps [EA [EB _]]]]]].
+    destruct (phaseB_in _ _ _ _ _ EB Hin Ho) as [a [_ Hs]].
+    rewrite Hcfg in Hs. unfold acc_step, apply_entry in Hs. rewrite Hpre, Eck in Hs. discriminate.
+  - destruct (check_loop_err _ _ _ _ Eck) as [k' [Hk' He]]. subst er. exists k'. split; [apply mem_str_In; exact Hk'|].
+    rewrite <- (k_name _ _ K). eapply check_error_listed; eassumption.
+  - exfalso. destruct (check_loop_ok _ _ _ _ Eck k v d1 (mem_checked_in _ Hm) Ha Ed1) as [c1 Hc1]. rewrite Hcv in Hc1. discriminate.
 Qed.
 
 (* a required value that is neither configured nor given by the class is named *)
@@ -1361,6 +1418,13 @@ Qed.
 Lemma param_dict_some v kw : assoc_str k_value kw = None -> param_dict (Some v) kw = kw ++ [(k_value, v)].
 Proof. intros H. unfold param_dict. apply dict_set_absent. exact H. Qed.
 
+Lemma NoDup_app_last {A} (l : list A) x : NoDup l -> ~ In x l -> NoDup (l ++ [x]).
+Proof.
+  induction l as [|a l IH]; simpl; intros ND Hn; [constructor; [intros []|constructor]|].
+  inversion ND; subst. constructor.
+  - intros Hi. apply in_app_or in Hi. destruct Hi as [Hi|[Hi|[]]]; [contradiction|subst; apply Hn; left; reflexivity].
+  - apply IH; [assumption|intros Hi; apply Hn; right; exact Hi].
+Qed.
 Lemma value_ptype : exists t, pprop_type param_props k_value = Some t.
 Proof. vm_compute. eexists. reflexivity. Qed.
 Lemma value_is_checked : mem_str k_value checked_value_props = true.
@@ -1373,16 +1437,26 @@ Proof.
   unfold configured_dt. rewrite configured_app. unfold configured at 1. cbn [fold_left]. rewrite over_step_value. reflexivity.
 Qed.
 
-Lemma value_step p1 d v c1 : p_iscmd p1 = false -> p_dt p1 = Some d -> conv d v = Ok c1 ->
-  prop_step (PGo p1) (k_value, v) = PGo (set_value p1 (Some v)).
+Lemma value_step p1 v : p_iscmd p1 = false -> prop_step (PGo p1) (k_value, v) = PGo (set_value p1 (nn v)).
 Proof.
-  intros Hc Hd Hv. unfold prop_step. rewrite Hc, value_is_checked, Hd, Hv. unfold param_setprop.
+  intros Hc. unfold prop_step. rewrite Hc. unfold param_setprop.
   destruct value_ptype as [t Ht]. rewrite Ht, str_eqb_refl'. reflexivity.
+Qed.
+
+Lemma assoc_app_last {A} k (v : A) : forall l, assoc_str k l = None -> assoc_str k (l ++ [(k, v)]) = Some v.
+Proof.
+  induction l as [|[k' x] l IH]; simpl; intros H; [rewrite str_eqb_refl'; reflexivity|].
+  destruct (str_eqb k k'); [discriminate|]. apply IH. exact H.
+Qed.
+Lemma assoc_app_other {A} k k2 (v : A) : forall l, str_eqb k k2 = false -> assoc_str k (l ++ [(k2, v)]) = assoc_str k l.
+Proof.
+  induction l as [|[k' x] l IH]; simpl; intros H; [rewrite H; reflexivity|].
+  destruct (str_eqb k k'); [reflexivity|]. apply IH. exact H.
 Qed.
 
 Lemma value_checked C c p d v kw :
   In p (c_params C) -> p_optional p = false -> p_iscmd p = false -> p_dt p = Some d ->
-  assoc_str k_value kw = None ->
+  assoc_str k_value kw = None -> NoDup (map fst kw) ->
   assoc_str (p_name p) c = Some (CDict (param_dict (Some v) kw)) ->
   exists dcfg, configured_dt d (p_unit p) kw = Some dcfg /\
     (forall i, mod_init C c = Created i ->
@@ -1393,33 +1467,49 @@ Lemma value_checked C c p d v kw :
     (forall e es p1, conv dcfg v = Err e -> is_bad_value e = true -> apply_entry_keep p kw = (p1, PGo p1) ->
        mod_init C c = Rejected es -> In (ErrBadValue (p_name p) k_value) es) /\
     (forall c1 p1 mexp, conv dcfg v = Ok c1 -> apply_entry_keep p kw = (p1, PGo p1) ->
+       (forall k v', In k [k_default; k_constant] -> assoc_str k kw = Some v' -> exists c', conv dcfg v' = Ok c') ->
        exists a, acc_step mexp p (Some (CDict (param_dict (Some v) kw))) = Some a /\ a_errs a = [] /\
          p_dt (a_param a) = Some dcfg /\ p_value (a_param a) = Some c1 /\
          a_write a = (if p_has_write p then Some v else None)).
 Proof.
-  intros Hin Ho Hc Hd Hkw Hcfg. rewrite (param_dict_some _ _ Hkw) in *.
+  intros Hin Ho Hc Hd Hkw NDk Hcfg. rewrite (param_dict_some _ _ Hkw) in *.
   destruct (configured_some kw (Some d, p_unit p) d eq_refl) as [dcfg Hdc]. exists dcfg. split; [exact Hdc|].
+  assert (NDe : NoDup (map fst (kw ++ [(k_value, v)]))).
+  { rewrite map_app. simpl. apply NoDup_app_last; [exact NDk|apply assoc_none_notin; exact Hkw]. }
   assert (A1 : forall i, mod_init C c = Created i ->
        exists p' c1, In p' (i_params i) /\ p_name p' = p_name p /\ p_dt p' = Some dcfg /\ conv dcfg v = Ok c1 /\
          p_value p' = match conv dcfg c1 with Ok c2 => Some c2 | Err _ => None end /\
          (p_has_write p = true -> In (p_name p, v) (i_write i))).
   { intros i H.
-    destruct (value_applied _ _ _ _ _ _ _ [] H Hin Ho Hc Hd Hcfg (fun x => x))
-      as [p' [dv [d' [c1 [Hp' [Hn [Hdv [Hc1 [Hd' [Hpd [Hval [Hw _]]]]]]]]]]]].
-    rewrite configured_dt_value in Hd'. unfold configured_dt in Hdv, Hd', Hdc. rewrite Hdc in Hdv, Hd'.
-    inversion Hdv; subst dv. inversion Hd'; subst d'.
-    exists p', c1. repeat split; try assumption. rewrite Hval. unfold start_value. rewrite Hc1. reflexivity. }
-  assert (PD : forall p1, apply_entry_keep p kw = (p1, PGo p1) -> p_iscmd p1 = false /\ p_dt p1 = Some dcfg /\ keeps p p1).
-  { intros p1 Hpre. destruct (entry_inv _ _ _ Hc Hpre) as [K [DU _]]. split; [rewrite (k_cmd _ _ K); exact Hc|]. split; [|exact K].
-    unfold dtu in DU. rewrite Hd in DU. unfold configured_dt in Hdc. rewrite <- DU in Hdc. exact Hdc. }
+    assert (Hiv : In (k_value, v) (kw ++ [(k_value, v)])) by (apply in_or_app; right; left; reflexivity).
+    destruct (value_applied _ _ _ _ _ _ _ H Hin Ho Hc Hd Hcfg NDe Hiv) as [p' [d' [c1 [Hp' [Hn [Hd' [Hpd [Hc1 [Hval [Hw _]]]]]]]]]].
+    rewrite configured_dt_value in Hd'. unfold configured_dt in Hd', Hdc. rewrite Hdc in Hd'. inversion Hd'; subst d'.
+    exists p', c1. repeat split; assumption. }
+  (* the entry with the value appended: all properties apply when the overrides do *)
+  assert (PD : forall p1, apply_entry_keep p kw = (p1, PGo p1) ->
+            p_iscmd p1 = false /\ p_dt p1 = Some dcfg /\ keeps p p1 /\
+            apply_entry_keep p (kw ++ [(k_value, v)]) = (set_value p1 (nn v), PGo (set_value p1 (nn v)))).
+  { intros p1 Hpre. destruct (entry_inv _ _ _ Hc Hpre) as [K [DU _]].
+    assert (Hcp : p_iscmd p1 = false) by (rewrite (k_cmd _ _ K); exact Hc).
+    split; [exact Hcp|]. split; [|split; [exact K|]].
+    - unfold dtu in DU. rewrite Hd in DU. unfold configured_dt in Hdc. rewrite <- DU in Hdc. exact Hdc.
+    - rewrite (apply_entry_keep_app _ _ _ _ Hpre), apply_entry_keep_cons, (value_step _ _ Hcp). reflexivity. }
   split; [exact A1|]. split; [|split].
   - intros e i He H. destruct (A1 i H) as [p' [c1 [_ [_ [_ [Hc1 _]]]]]]. rewrite He in Hc1. discriminate.
-  - intros e es p1 He Hb Hpre H. destruct (PD p1 Hpre) as [_ [Hd1 _]].
-    eapply wrong_type_listed; try eassumption. apply value_is_checked.
-  - intros c1 p1 mexp Hc1 Hpre. destruct (PD p1 Hpre) as [Hcp [Hd1 K]].
-    unfold acc_step. rewrite (apply_entry_keep_app _ _ _ _ Hpre), apply_entry_keep_cons, (value_step _ _ _ _ Hcp Hd1 Hc1).
-    simpl apply_entry_keep. cbv beta iota zeta.
-    set (q := set_value p1 (Some v)).
+  - intros e es p1 He Hb Hpre H. destruct (PD p1 Hpre) as [Hcp [Hd1 [K Happ]]].
+    rewrite <- (k_name _ _ K). change (p_name p1) with (p_name (set_value p1 (nn v))).
+    eapply check_error_listed; try eassumption.
+    rewrite checked_order. simpl. rewrite (assoc_app_last _ _ _ Hkw). change (p_iscmd (set_value p1 (nn v))) with (p_iscmd p1).
+    rewrite Hcp. change (p_dt (set_value p1 (nn v))) with (p_dt p1). rewrite Hd1, He, Hb. reflexivity.
+  - intros c1 p1 mexp Hc1 Hpre Hdc2. destruct (PD p1 Hpre) as [Hcp [Hd1 [K Happ]]].
+    rewrite (conv_ok_nn _ _ _ Hc1) in Happ.
+    set (q := set_value p1 (Some v)) in *.
+    assert (Hck : check_loop q (kw ++ [(k_value, v)]) checked_value_props = PGo q).
+    { apply (check_loop_pass q _ dcfg Hcp Hd1). rewrite checked_order. intros k v' [Hk|Hk] Ha.
+      - subst k. rewrite (assoc_app_last _ _ _ Hkw) in Ha. inversion Ha; subst v'. exists c1. exact Hc1.
+      - assert (str_eqb k k_value = false) as Hne by (destruct Hk as [Hk|[Hk|[]]]; subst k; reflexivity).
+        rewrite (assoc_app_other _ _ _ _ Hne) in Ha. eapply Hdc2; eassumption. }
+    unfold acc_step, apply_entry. rewrite Happ, Hck. cbv beta iota zeta.
     destruct (post_keeps mexp q) as [K0 [PV [_ [_ [PD0 _]]]]].
     rewrite post_cmd. change (p_iscmd q) with (p_iscmd p1). rewrite Hcp.
     unfold handle_writes. rewrite PD0, PV. change (p_dt q) with (p_dt p1). change (p_value q) with (Some v).
